@@ -22,6 +22,8 @@ extern "C" {
   extern void *_ZTV7VHeader[];
 }
 enum { g_logon = 1, g_logout, g_heartbeat, g_resend_request, g_sequence_reset, g_test_request, g_reject, g_business_reject };
+alignas(8) static char vf_no_traits[sizeof(FieldTrait)];      // empty trait table (count 0) with a valid address
+static inline const FieldTrait *no_traits() { return reinterpret_cast<const FieldTrait *>(vf_no_traits); }
 static inline Message *token() { return reinterpret_cast<Message *>(&vf_gen_token); }
 static inline unsigned slen(const char *s) { unsigned n(0); if (s) while (s[n]) ++n; return n; }
 
@@ -52,7 +54,7 @@ struct VHeader : MessageBase
   VHeader(const F8MetaCntx& c, const f8String& t);
   void operator delete(void *p) { }
 };
-VHeader::VHeader(const F8MetaCntx& c, const f8String& t) : MessageBase(c, t, static_cast<const FieldTrait *>(nullptr), 0, nullptr) {}
+VHeader::VHeader(const F8MetaCntx& c, const f8String& t) : MessageBase(c, t, no_traits(), 0, nullptr) {}
 struct VMessage : Message
 {
   VMessage(const F8MetaCntx& c, const f8String& t);
@@ -61,7 +63,7 @@ struct VMessage : Message
   // attribute objects the accessor stubs hand out by pointer (real field objects built by their real constructors)
   f8String _vtype; sender_comp_id _vsci; target_comp_id _vtci; reset_seqnum_flag _vreset;
 };
-VMessage::VMessage(const F8MetaCntx& c, const f8String& t) : Message(c, t, static_cast<const FieldTrait *>(nullptr), 0, nullptr) {}
+VMessage::VMessage(const F8MetaCntx& c, const f8String& t) : Message(c, t, no_traits(), 0, nullptr) {}
 
 extern "C" {
 // the namespace-scope std::string constants the session code compares message types with (their dynamic initialisers)
@@ -80,13 +82,13 @@ void vf_session_init(VSession *mem) { *reinterpret_cast<void ***>(mem) = &_ZTV8V
 // the message type (1..2 characters) is a real std::string member of the abstract message
 void vf_header_init(VHeader *mem, const F8MetaCntx *ctx, VMessage *owner)
 {
-  new (static_cast<MessageBase *>(mem)) MessageBase(*ctx, owner->_vtype, static_cast<const FieldTrait *>(nullptr), 0, nullptr);
+  new (static_cast<MessageBase *>(mem)) MessageBase(*ctx, owner->_vtype, no_traits(), 0, nullptr);
   *reinterpret_cast<void ***>(mem) = &_ZTV7VHeader[2];
 }
 void vf_message_init(VMessage *mem, const F8MetaCntx *ctx, VHeader *hdr, const char *type, unsigned ntype)
 {
   new (&mem->_vtype) f8String(type, ntype);
-  new (static_cast<MessageBase *>(mem)) MessageBase(*ctx, mem->_vtype, static_cast<const FieldTrait *>(nullptr), 0, nullptr);
+  new (static_cast<MessageBase *>(mem)) MessageBase(*ctx, mem->_vtype, no_traits(), 0, nullptr);
   *reinterpret_cast<void ***>(mem) = &_ZTV8VMessage[2];
   mem->_header = hdr; mem->_trailer = nullptr; mem->_custom_seqnum = 0; mem->_no_increment = false; mem->_end_of_batch = true;
 }
